@@ -10,6 +10,7 @@ mod u2b;
 mod u3;
 mod u4;
 mod u5;
+mod u5c;
 mod u6;
 mod u6b;
 mod u8;
@@ -43,6 +44,10 @@ fn main() {
     ("u4", "replay") => u4::replay(rest),
     ("u5", "find") => u5::find(rest),
     ("u5", "replay") => u5::replay(rest),
+    ("u5c", "list") => u5c::list(rest),
+    ("u5c", "run") => u5c::run(rest),
+    ("u5c", "show") => u5c::show(rest),
+    ("u5c", "replay") => u5c::replay(rest),
     ("u6", "find") => u6::find(rest),
     ("u6", "replay") => u6::replay(rest),
     ("u6b", "find") => u6b::find(rest),
